@@ -1,4 +1,8 @@
 import Gaftools.Gen.MergeNodes
+import Gaftools.Gen.Tables
+import Gaftools.Gen.IsStable
+import Gaftools.Model.Gfa
+import Gaftools.Model.Gaf
 /-!
 # Tie A for `conversion.merge_nodes`: the definition translated from the current source equals the hand-written model
 used by `toStable` (and by every theorem of C01/C02).
@@ -9,5 +13,18 @@ open Gaftools.Conv
 theorem mergeNodes_gen_eq_model (n1 n2 : SNode) (o1 o2 : Bool) : Gen.mergeNodes n1 n2 o1 o2 = Conv.mergeNodes n1 n2 o1 o2 := by
   unfold Gen.mergeNodes Conv.mergeNodes
   cases o1 <;> cases o2 <;> simp <;> (repeat' split) <;> simp_all
+
+/-- `gfa.E_DIR` as translated from the source is the table the graph model uses (C07, C14, C15) -/
+theorem eDir_gen_eq_model (a b : Bool) : Gen.eDir a b = Gaftools.Gfa.eDir a b := by
+  cases a <;> cases b <;> rfl
+
+/-- the `cases` table of `GFA.path_exists` as translated from the source is the table of the walk model (C14) -/
+theorem pathCase_gen_eq_model (a b : Bool) : Gen.pathCase a b = Gaftools.Gfa.pathCase a b := by
+  cases a <;> cases b <;> rfl
+
+/-- `Alignment.detect_path_format` as translated from the source is the model's `isStable` (C03, C04) -/
+theorem isStable_gen_eq_model (p : List Char) : Gen.isStable p = Gaftools.Gaf.isStable p := by
+  unfold Gen.isStable Gaftools.Gaf.isStable
+  cases h1 : p.contains ':' <;> cases h2 : p.contains '>' <;> cases h3 : p.contains '<' <;> simp_all
 
 end Gaftools.TieA
